@@ -32,7 +32,8 @@ SnpExtra == {"snp_extra", "snp_bare_extra"}
 SnpNoExtra == {"snp_noextra", "snp_bare_noextra"}
 \* the bare certificate table as text: hexadecimal, or base64 on one line, with a final newline, wrapped at
 \* 76 columns (base64(1)) or at 64 with CR LF (openssl, MIME) -- other spellings of the same evidence
-CertTableExtra == {"certtable_extra", "certtable_extra_hex", "certtable_extra_b64", "certtable_extra_b64nl", "certtable_extra_b64wrap", "certtable_extra_b64crlf"}
+\* "_padded": followed by zero bytes up to a whole 4096-byte page, as the kernel interfaces deliver it
+CertTableExtra == {"certtable_extra", "certtable_extra_hex", "certtable_extra_b64", "certtable_extra_b64nl", "certtable_extra_b64wrap", "certtable_extra_b64crlf", "certtable_extra_padded"}
 Quotes == CertTableExtra \cup {"none", "unparseable", "snp_extra", "snp_noextra", "snp_bare_extra", "snp_bare_noextra", "report_only", "tdx", "certtable_noextra",
            "snp_short_meas", "tdx_short_mrtd"}      \* a report / quote whose measurement is not 48 bytes long
 Providers == {"none", "snp_extra", "snp_noextra", "failing"}
